@@ -25,6 +25,15 @@ var c14Templates = []string{
 	"x := read\nprint x\ncls\nsleep 0.001\nmove 1 2\nline 3 4\nprint \"z\"\n",
 }
 
+// c14Runaway reports a run that the harness had to abort by force: the yield budget raised the stop flag and the
+// evaluator went on evaluating (budgetYielder's runawayGrace).
+func c14Runaway(r *Result, run SemRun, in map[string]any) {
+	if strings.HasPrefix(run.GoPanic, "harness: run not interruptible") {
+		r.Violate(Violation{Kind: "property", Key: "not-interruptible",
+			Detail: fmt.Sprintf("the stop flag raised at the yield budget was ignored (phase %d of the history): %s", len(run.Phases)-1, run.GoPanic), Input: in})
+	}
+}
+
 func c14IsSummary(s string) bool {
 	return strings.HasPrefix(s, "print:✅") || strings.HasPrefix(s, "print:❌")
 }
@@ -41,6 +50,7 @@ func c14Program(model *Model, r *Result, src string, maxK int, cfg Config) {
 	Y := base.Phases[0].Yields
 	if base.Phases[0].Class == "gopanic" {
 		r.Dist("gopanic-base")
+		c14Runaway(r, base, map[string]any{"program": src, "stop_at": -1, "input": []string{"in1", "in2"}})
 		return
 	}
 	r.Dist("base:" + strings.SplitN(base.Phases[0].Class, ":", 2)[0])
@@ -128,6 +138,9 @@ func c14EffectsAfterStop(r *Result, src string, k int, evs ...SemEvent) {
 	}
 	r.Evaluations++
 	if len(rest) > 0 {
+		if len(rest) > 5 {
+			rest = append(rest[:5:5], fmt.Sprintf("… (%d more)", len(rest)-5))
+		}
 		r.Violate(Violation{Kind: "property", Key: "effect-after-stop",
 			Detail: fmt.Sprintf("after the stop flag was raised during yield %d the program still performed %v", k, rest),
 			Input:  map[string]any{"program": src, "stop_at": k, "events": evs}})
@@ -192,6 +205,7 @@ func c14EventProgram(model *Model, r *Result, src string, evs []SemEvent, maxK i
 	for i, p := range ph {
 		if p.Class == "gopanic" {
 			r.Dist("events:gopanic-base")
+			c14Runaway(r, base, map[string]any{"program": src, "stop_at": -1, "events": evs, "input": input})
 			return
 		}
 		if p.Class == "budget" {
